@@ -20,7 +20,17 @@ def histogram(line):
     return keys
 
 
+def _e2e_obligations():
+    # the end-to-end composition theorems of coq/e2e (text -> encode -> stripe -> configure -> Scanner) count as
+    # obligations of this property in the thorough tier
+    from props import e2e
+    return e2e.obligations()
+
+
 SPEC = dict(
+    extra_obligations={"thorough": _e2e_obligations},
+    extra_obligations_name="coq/e2e/E2E.v: end-to-end composition of C05, C04, C01, C08, C07 with the scanner model",
+    extra_obligations_cmd="make -C coq/e2e (and imported groups) + Print Assumptions audit of LME2E.E2E",
     id="C03",
     group="scan",
     props_file="C03.v",
